@@ -149,18 +149,62 @@ class Work:
         return res
 
     def validate(self, trace, name, module="AuthMonitor", timeout=1800):
-        """Trace validation: TLC consumes the recorded trace under the trace specification."""
+        """Trace validation: TLC consumes the recorded trace under the trace specification. Long traces are cut at scenario
+        boundaries and validated by several TLC processes at once; the verdicts are merged."""
+        with open(trace) as fh:
+            lines = fh.readlines()
+        CH = 30000
+        if len(lines) <= CH * 1.5:
+            return self._validate_one(trace, name, module, timeout)
+        heads, cuts = [], []
+        for i, ln in enumerate(lines):
+            ev = ln[:200]
+            if '"ev":"targets"' in ev or '"ev":"inputs"' in ev:
+                heads.append(ln)
+            if any(k in ev for k in ('"ev":"reset"', '"ev":"sreset"', '"ev":"kreset"', '"ev":"treset"', '"ev":"breset"', '"ev":"cfg"', '"ev":"c07"', '"ev":"c08"', '"ev":"rpair"')):
+                cuts.append(i)
+        chunks, start = [], (cuts[0] if cuts else 0)
+        for c in cuts:
+            if c - start >= CH:
+                chunks.append((start, c))
+                start = c
+        chunks.append((start, len(lines)))
+        paths = []
+        for k, (a, b) in enumerate(chunks):
+            p = self.path("%s.part%d.ndjson" % (name, k))
+            with open(p, "w") as fh:
+                fh.writelines(heads)
+                fh.writelines(lines[a:b])
+            paths.append(p)
+        import concurrent.futures
+        merged = {"consumed": 0, "len": 0, "viol": [], "drift": [], "fired": {}, "torn": {}}
+        with concurrent.futures.ThreadPoolExecutor(max_workers=6) as ex:
+            for v in ex.map(lambda kp: self._validate_one(kp[1], "%s-p%d" % (name, kp[0]), module, timeout, quiet=True, xmx="4g"), enumerate(paths)):
+                merged["consumed"] += v["consumed"]
+                merged["len"] += v["len"]
+                merged["viol"] += v["viol"]
+                merged["drift"] += v.get("drift", [])
+                for k_, n_ in (v.get("fired") or {}).items():
+                    merged["fired"][k_] = merged["fired"].get(k_, 0) + n_
+                for k_, n_ in (v.get("torn") or {}).items():
+                    merged["torn"][k_] = merged["torn"].get(k_, 0) + n_
+        log("[trace] %s: %d events of the real execution validated by %s in %d parallel parts; %d violation records, %d drift" % (
+            name, len(lines), module, len(paths), len(merged["viol"]), len(merged["drift"])))
+        return merged
+
+    def _validate_one(self, trace, name, module, timeout, quiet=False, xmx=None):
         outf = self.path(name + ".verdict.json")
         cfg = 'SPECIFICATION Spec\nCONSTANTS\n  TraceFile = "%s"\n  OutFile = "%s"\nINVARIANT Emit\nCHECK_DEADLOCK FALSE\n' % (trace, outf)
-        out, gen, dist, viol, d = self.tlc(module, cfg, "mon-" + name, workers=1, timeout=timeout)
+        out, gen, dist, viol, d = self.tlc(module, cfg, "mon-" + name, workers=1, timeout=timeout, jvm=(["-Xmx" + xmx] if xmx else None))
         if not os.path.exists(outf):
             # the trace specification rejected a line: find how far it got
             raise Infra("trace %s was not consumed to the end by %s (no action accepts some line):\n%s" % (name, module, out[-2500:]))
         v = json.load(open(outf))
         if v["consumed"] != v["len"]:
             raise Infra("trace %s: consumed %d of %d lines" % (name, v["consumed"], v["len"]))
-        log("[trace] %s: %d events of the real execution validated by %s; %d violation records, %d drift" % (
-            name, v["len"], module, len(v["viol"]), len(v.get("drift", []))))
+        if not quiet:
+            log("[trace] %s: %d events of the real execution validated by %s; %d violation records, %d drift" % (
+                name, v["len"], module, len(v["viol"]), len(v.get("drift", []))))
         return v
 
 
